@@ -56,6 +56,57 @@ def named_init(fn, fid):
     return p
 
 
+def hoisted_init(fd, F, init, fid, H_from, H_to, back, body_to):
+    """Named locals computed once per trip of the outer loop before the inner loop starts (`let end = index + c.len_utf8();`
+    hoisted out of the inner loops): a local that is not written inside the inner loop and whose value on entry to it is the same
+    pure term over other named locals on every way there starts the inner-loop analysis as that term instead of an opaque
+    symbol."""
+    ex0 = S.Engine(fd, F, Model(), cut_edges=back, stop_blocks={H_to}, inline=GETTERS, desugar=KDESUGAR, max_paths=4000)
+    ps = [p for p in ex0.run(H_from, named_init(fd, ex0.fid)) if p.end and p.end[0] == "stop"]
+    if not ps or ex0.truncated:
+        return init
+    names = fd.names()
+    vals = {}
+    for l in names:
+        vs = {p.locals.get((ex0.fid, l)) for p in ps}
+        if len(vs) == 1:
+            v = vs.pop()
+            if v is not None:
+                vals[l] = v
+    symof = {l: init.locals[(fid, l)] for l in names if (fid, l) in init.locals}
+    # terms standing for other named locals are written as those locals' symbols (largest terms first)
+    subst = sorted(((v, symof[l]) for l, v in vals.items() if l in symof and v != symof[l] and (v[0] not in ("int", "bool", "sym") or (v[0] == "sym" and str(v[1]).startswith("item@")))), key=lambda x: -len(str(x[0])))
+
+    def rw(t, skip):
+        if not isinstance(t, tuple):
+            return t
+        for a, b in subst:
+            if t == a and b != skip:
+                return b
+        return tuple(rw(x, skip) for x in t)
+
+    def pure(t):
+        if not isinstance(t, tuple) or not t:
+            return True
+        if t[0] in ("sym", "int", "bool"):
+            return True
+        if t[0] in ("add", "sub"):
+            return pure(t[1]) and pure(t[2])
+        if t[0] == "app":
+            return bool(re.search(r"(^|::)len_utf8$", str(t[1]))) and all(pure(a) for a in t[2])
+        return False
+    defs = fd.defs()
+    for l, v in vals.items():
+        if l not in symof or v == symof[l]:
+            continue
+        if any(d["bb"] in body_to for d in defs.get(l, [])):
+            continue            # written inside the inner loop: an incumbent, not a hoisted constant of the trip
+        v2 = rw(v, symof[l])
+        if v2 != symof[l] and v2[0] in ("add", "sub") and pure(v2):
+            init.locals[(fid, l)] = v2
+    return init
+
+
 def loop_info(fn):
     loops = fn.natural_loops()
     info = {}
@@ -236,7 +287,7 @@ def analyze(ctx, want):
 
     # ------------------------------------------------------------------ one transition-loop iteration
     ex = S.Engine(fd, F, Model(), cut_edges=back, inline=GETTERS, max_paths=40000, desugar=KDESUGAR)
-    init = named_init(fd, ex.fid)
+    init = hoisted_init(fd, F, named_init(fd, ex.fid), ex.fid, H_char, H_tr, back, li[H_tr]["body"])
     paths = ex.run(H_tr, init)
     if ex.truncated:
         ctx.missing("C05.anchor", "path enumeration of the transition loop truncated")
@@ -425,9 +476,24 @@ def analyze(ctx, want):
         for rule_ in ("C04.e", "C05.b"):
             ob(rule_, "lookahead-looked-up-for-every-accepting-candidate", bool(get),
                "an accepting candidate is decided %s its lookahead was looked up (a candidate may only be dismissed after its lookahead, which contributes to its extent, is known)" % ("after" if get else "BEFORE/without"), fd.loc())
+        # the text after the candidate: `input.split_at_checked(n)` (second half) or `input.get(n..)` — both are Some exactly when
+        # n is a char boundary within the haystack.  tail = (call event, haystack, index, term of the rest)
+        tail = None
         split = p.calls(r"split_at_checked$")
+        if split:
+            e_ = split[-1]
+            tail = (e_, e_[3][0], e_[3][1], ("field", ("field", ("downcast", e_[4], "Some"), "0"), "1"))
+        else:
+            split = p.calls(r"<impl str>::get::<std::ops::RangeFrom<usize>>$")
+            if split:
+                e_ = split[-1]
+                rng_ = ex.deref_val(p, e_[3][1]) if e_[3][1][0] == "ref" else e_[3][1]
+                if rng_[0] == "adt" and rng_[1].endswith("ops::RangeFrom") and len(rng_[3]) == 1:
+                    tail = (e_, e_[3][0], rng_[3][0], ("field", ("downcast", e_[4], "Some"), "0"))
+                elif rng_[0] == "tuple" and len(rng_[1]) == 1:
+                    tail = (e_, e_[3][0], rng_[1][0], ("field", ("downcast", e_[4], "Some"), "0"))
         sat = p.calls(r"CompiledLookahead::satisfies_lookahead$")
-        split_v = variant_of(ex, p, split[-1][4]) if split else None
+        split_v = variant_of(ex, p, tail[0][4]) if tail else None
         satisfied = None
         la_len_term = None
         if sat:
@@ -459,11 +525,10 @@ def analyze(ctx, want):
         # ---------- C04.c the lookahead reads the text after the candidate
         if sat:
             a_in, a_ci = sat[-1][3][1], sat[-1][3][2]
-            spl = split[-1] if split else None
-            ok_split = spl is not None and S.vstr(ex.deref_val(p, spl[3][0])) in ("input", "*input") and S.linear(spl[3][1]) == S.linear(END)
+            ok_split = tail is not None and S.vstr(ex.deref_val(p, tail[1])) in ("input", "*input") and S.linear(tail[2]) == S.linear(END)
             ob("C04.c", "lookahead-haystack-split-at-candidate-end", bool(ok_split),
-               "split_at_checked(%s, %s) (must split the cursor's haystack at index + len_utf8(c))" % (S.vstr(spl[3][0]) if spl else None, S.vstr(spl[3][1]) if spl else None), fd.loc(sat[-1][1]))
-            rest = ("field", ("field", ("downcast", spl[4], "Some"), "0"), "1") if spl else None
+               "the rest of %s from %s on (must split the cursor's haystack at index + len_utf8(c))" % (S.vstr(tail[1]) if tail else None, S.vstr(tail[2]) if tail else None), fd.loc(sat[-1][1]))
+            rest = tail[3] if tail else None
             def is_view_of(v, target):
                 # v is `target` behind any number of & / * (no arithmetic, no other projection)
                 n = 0
@@ -756,6 +821,10 @@ def analyze(ctx, want):
             inc_init[nm] = S.vstr(v) if v else None
         ok_init = all(LOCAL_VAL(p, ex.fid, name2local[r]) == none() for r in (roles["tid"], roles["end"])) and (start_hoisted or LOCAL_VAL(p, ex.fid, name2local[roles["start"]]) == none())
         ob("C05.d", "incumbents-start-absent", ok_init, "initial incumbents: %s" % inc_init, fd.loc())
+    def contradicts_invariant(p):
+        """the path presumes a terminal id without an end or a start: excluded by the invariant C05.d checks on every write"""
+        var = lambda role: p.assume.get(("variant", ("sym", roles[role])))
+        return var("tid") == "Some" and (var("start") == "None" or var("end") == "None")
     # after the state loop: current := next, next emptied; stop when nothing is active
     # (region: exit of the middle loop -> back edge of the char loop / exit)
     for hm in mids:
@@ -778,6 +847,8 @@ def analyze(ctx, want):
                 emp = [(c, oo) for c, oo in p.conds if c[0] == "app" and re.search(r"Vec::<.*>::is_empty$", c[1]) and "current_states" in S.vstr(c)]
                 if emp:
                     stops = p.end[0] in ("return",) or (p.end[0] == "cut" and False)
+                    if p.end[0] == "diverge" and contradicts_invariant(p):
+                        continue      # `match (start, end) { (Some(s), Some(e)) => .., _ => unreachable!() }` under `tid is Some`: ruled out by C05.d
                     if emp[-1][1] is True:
                         ob("C07.c", "simulation-stops-when-no-state-is-active", p.end[0] == "return", "no active state -> %s" % p.end[0], fd.loc())
                     else:
